@@ -158,6 +158,44 @@ def check_indexcast(wi, wo, x):
     return None
 
 
+@rechecked
+def check_indexcast_real(direction, w, index_bw, x):
+    """arith.index_cast between the real IndexType (interpreter index width index_bw) and iW: sign-extension when widening, truncation when narrowing."""
+    from xdsl.dialects import arith
+    from xdsl.dialects.builtin import IndexType, IntegerType
+
+    src, dst = (IntegerType(w), IndexType()) if direction == "to_index" else (IndexType(), IntegerType(w))
+    wi, wo = (w, index_bw) if direction == "to_index" else (index_bw, w)
+    op = arith.IndexCastOp(_val(src), dst)
+    exp = sgn(x, wi) % (1 << wo)
+    try:
+        (r,) = _interp(index_bw).run_op(op, (x,))
+    except Exception as e:  # noqa: BLE001
+        return {"call": f"index_cast {src}->{dst} (index width {index_bw}) ({x})", "raised": repr(e)}
+    Mo = 1 << wo
+    if not (-(Mo >> 1) <= r < Mo) or r % Mo != exp:
+        return {"call": f"index_cast {src}->{dst} (index width {index_bw}) ({x})", "observed": r, "expected_bits": exp}
+    return None
+
+
+def explore_casts(tier, seed):
+    import random
+
+    rnd = random.Random(seed)
+    cases, fails = 0, []
+    for index_bw in (32, 64):
+        for w in (1, 8, 16, 32, 64, 128):
+            for direction in ("to_index", "from_index"):
+                wi = w if direction == "to_index" else index_bw
+                for x in signless_values(wi, rnd, 12 if tier == "quick" else 60):
+                    cases += 1
+                    f = check_indexcast_real(direction, w, index_bw, x)
+                    if f and not fails:
+                        fails.append(dict(f, key="C15/xdsl.interpreters.arith.ArithFunctions.run_indexcast/post#bits", inputs={}))
+    return {"cases": cases, "failures": fails, "exhaustive": False,
+            "bound": "arith.index_cast between the real index type (interpreter index widths 32 and 64) and i1/i8/i16/i32/i64/i128, both directions, boundary + seeded operands"}
+
+
 def signless_values(w, rnd=None, extra=24):
     """All signless representatives for w <= 3, boundary + random above."""
     lo, hi = -((1 << w) >> 1), 1 << w
